@@ -726,3 +726,22 @@ func (w *W) genDenseSizes(fn inputFn) {
 		}
 	}
 }
+
+// genBackslashRuns: runs of 58..200 backslashes (whole 64-byte blocks of nothing but
+// backslashes, with every parity of the part before the block boundary), inside a string at
+// sampled start offsets; even runs are valid strings, odd runs escape the closing quote.
+func (w *W) genBackslashRuns(fn inputFn) {
+	i := 0
+	for _, run := range []int{58, 62, 63, 64, 65, 66, 67, 68, 70, 72, 96, 126, 127, 128, 129, 130, 131, 132, 134, 190, 192, 193, 194, 196, 200} {
+		for off := 0; off < 64; off++ {
+			i++
+			if !w.mine(i) {
+				continue
+			}
+			pre := `["` + strings.Repeat("a", off)
+			fn("backslash-run", []byte(pre+strings.Repeat("\\", run)+`","z"]`))
+			fn("backslash-run", []byte(pre+strings.Repeat("\\", run)+`"","z"]`))
+			fn("backslash-run-key", []byte(`{"`+strings.Repeat("k", off)+strings.Repeat("\\", run)+`":1}`))
+		}
+	}
+}
